@@ -3,4 +3,14 @@ EXTENDS GBN
 CONSTANTS SendC, SendS, PingC, PingS
 MCMaxSend == [e \in EP |-> IF e = "c" THEN SendC ELSE SendS]
 MCMaxPing == [e \in EP |-> IF e = "c" THEN PingC ELSE PingS]
+
+\* Refinement: the protocol model implements the windowed in-order
+\* exactly-once channel the layers above assume (RelChan.tla).  A message
+\* counts as delivered when the receive loop hands it to the application's
+\* buffer (inbox), as accepted when the send loop has taken it (SAdd).
+Rel == INSTANCE RelChan WITH
+          Dir <- EP, Window <- N,
+          acc <- nAcc,
+          dl <- [e \in EP |-> dlv[Peer(e)] \o inbox[Peer(e)]]
+RelRefinement == Rel!Spec
 =============================================================================
